@@ -7,7 +7,7 @@
    side condition of the diamond. *)
 From stdpp Require Import gmap strings sorting.
 Require Import Grits.Base Grits.ModeDefs Grits.Modes Grits.STypes Grits.Forms Grits.Subst Grits.TcDeps Grits.Expand.
-Require Import Grits.Runtime Grits.proofs.RuntimeFacts Grits.proofs.Diamond.
+Require Import Grits.Runtime Grits.RuntimeFootprint Grits.proofs.RuntimeFacts Grits.proofs.Diamond.
 
 (* ------------------------------------------------------------------ abstract confluence *)
 Section Confluence.
